@@ -352,7 +352,7 @@ PROPS = {
         rule="all 256 tags x payload lengths 0..=6; payload lengths 0..=255 for each typed descriptor (registration, ISO-639 with "
              "audio types steered to 0..5, maximum bitrate, AVC); exhaustive loops over (tag class in {5,10,14,40,0,200}, length in "
              "{0,1,3,4,5}) sequences up to total length 10 (thorough 14) with truncated and over-long tails; random loops of up to 5 "
-             "descriptors with random tails / truncation; distinct = distinct case lines, every accessor of every item is evaluated plus the AVC descriptor over the profile_idc / level_idc values H.264 defines x flags bytes, and boundary values of the maximum-bitrate field",
+             "descriptors with random tails / truncation; distinct = distinct case lines, every accessor of every item is evaluated plus the AVC descriptor over the profile_idc / level_idc values H.264 defines x flags bytes, and boundary values of the maximum-bitrate field; loops around and beyond 1 KiB, 4 KiB and 64 KiB",
         trusted=["13818-1 2.6 (Table 2-45 and the typed descriptors' syntax) as transcribed in coq/Spec/DescriptorSpec.v",
                  "encoding_rs::mem::decode_latin1 modelled as the identity on code points; smptera FormatIdentifier as its 4 bytes"],
         assumptions=["input bytes are < 256", "typed descriptors' buffers are private: tag and payload offset are observed only for UnknownDescriptor and through additional_identification_info()"],
@@ -394,7 +394,7 @@ PROPS = {
         rule="all 256 flag bytes x all adaptation-field lengths 1..=183 x fill in {00, FF, counting, random} with the private-data "
              "and extension length bytes steered to {0, 1, fit-1, fit, fit+1, ...}; all 8 extension flag sets x extension lengths "
              "0..=12 x 8 preceding-field combinations with truncation; adaptation fields delimited by Packet::adaptation_field; "
-             "distinct = distinct case lines; all non-trivial (every accessor is evaluated on every case)",
+             "distinct = distinct case lines; all non-trivial (every accessor is evaluated on every case); every accessor is asked twice on one value and, on a second value, in the opposite order first (answers must not depend on call history)",
         trusted=["13818-1 Table 2-6 as transcribed in coq/Spec/AdaptationSpec.v (sequential byte-cursor reader)"],
         assumptions=["input bytes are < 256", "AdaptationField::new is only specified for non-empty slices (its documented precondition)"],
     ),
